@@ -143,7 +143,16 @@ func errDetail(tok string) *status.Status {
 	if tok == "-" {
 		return nil
 	}
-	return &status.Status{Code: 13, Message: wire.Dec(tok[2:])}
+	// error_detail.code: INTERNAL, or INVALID_ARGUMENT / UNAVAILABLE for some messages (the code is only reported)
+	msg := wire.Dec(tok[2:])
+	code := int32(13)
+	switch msg {
+	case "bad config":
+		code = 3
+	case "rejected":
+		code = 14
+	}
+	return &status.Status{Code: code, Message: msg}
 }
 
 func (s *sut) showState() string {
@@ -434,6 +443,9 @@ var nameUniverse = []string{"a", "b", "c"}
 func genNames(r *wire.Rng, allowEmpty bool) []string {
 	for {
 		l := wire.Subset(r, nameUniverse, 1, 2)
+		if r.Chance(1, 10) {
+			l = append(l, "*") // in SotW `*` is a name like any other
+		}
 		if r.Chance(1, 12) && len(l) > 0 {
 			l = append(l, l[0]) // duplicate in the request
 		}
